@@ -104,6 +104,8 @@ def nested_spec(alts, alone, nests, mus, model, mu=None, **forms):
     s = dict(kind='nested', alts=list(alts), alone=list(alone), nests=[list(n) for n in nests], mus=list(mus), model=model)
     if mu is not None:
         s['mu'] = mu
+    if 'mu_form' in forms:
+        forms['mu'] = forms.pop('mu_form')
     if forms:
         s['forms'] = forms
     return s
@@ -113,6 +115,8 @@ def cnl_spec(alts, alone, nests, mus, model, mu=None, **forms):
     s = dict(kind='cnl', alts=list(alts), alone=list(alone), nests=[dict(n) for n in nests], mus=list(mus), model=model)
     if mu is not None:
         s['mu'] = mu
+    if 'mu_form' in forms:
+        forms['mu'] = forms.pop('mu_form')
     if forms:
         s['forms'] = forms
     return s
@@ -148,10 +152,12 @@ def check_nested_structure(alph, alts, alone, nests, mus, table, rec, tier, si=0
     info = dict(shape=shape(alone, nests), alone=list(alone), nests=[list(n) for n in nests], mus=list(mus))
     whole = [{a: 1.0 for a in n} for n in nests]
     muform = B.MUFORMS[si % 3]          # float / fixbeta / numeric
+    pf = B.PFORMS[si % 4]               # nest parameters as Numeric / fixed Beta / free Beta / float (both syntaxes)
+    af = B.ALPHAFORMS[si % 3]
     scales = alph['scale'][1:]
     for log in (False, True):
         pre = 'log' if log else ''
-        N = nested_spec(alts, alone, nests, mus, pre + 'nested')
+        N = nested_spec(alts, alone, nests, mus, pre + 'nested', p=pf)
         vN = ev(N)
         # (a) all parameters one -> logit
         if all(m == 1.0 for m in mus):
@@ -159,32 +165,32 @@ def check_nested_structure(alph, alts, alone, nests, mus, table, rec, tier, si=0
             compare(rec, 'nested-with-unit-parameters-differs-from-logit', pre + 'nested', pre + 'logit', N, L, table, vN, ev(L), info)
         # (b) whole memberships -> nested
         if nests:
-            C = cnl_spec(alts, alone, whole, mus, pre + 'cnl')
+            C = cnl_spec(alts, alone, whole, mus, pre + 'cnl', p=pf, alpha=af)
             compare(rec, 'cnl-with-whole-memberships-differs-from-nested', pre + 'cnl', pre + 'nested', C, N, table, ev(C), vN, info)
         # (c) scale one
-        N1 = dict(nested_spec(alts, alone, nests, mus, pre + 'nested_mev_mu', mu=1.0), forms=dict(mu=muform))
+        N1 = nested_spec(alts, alone, nests, mus, pre + 'nested_mev_mu', mu=1.0, p=pf, mu_form=muform)
         compare(rec, 'scale-one-differs-from-unscaled', pre + 'nested_mev_mu(mu=1)', pre + 'nested', N1, N, table, ev(N1), vN, info)
         # (d) tuple syntax
-        Nt = nested_spec(alts, alone, nests, mus, pre + 'nested', syntax='tuple')
+        Nt = nested_spec(alts, alone, nests, mus, pre + 'nested', p=pf, syntax='tuple')
         compare(rec, 'tuple-syntax-differs-from-nest-objects', pre + 'nested[tuple]', pre + 'nested[objects]', Nt, N, table, ev(Nt), vN,
                 info, rel=1e-13)
         if nests:
-            Ct = cnl_spec(alts, alone, whole, mus, pre + 'cnl', syntax='tuple')
+            Ct = cnl_spec(alts, alone, whole, mus, pre + 'cnl', p=pf, alpha=af, syntax='tuple')
             compare(rec, 'tuple-syntax-differs-from-nest-objects', pre + 'cnl[tuple]', pre + 'cnl[objects]', Ct, C, table, ev(Ct), ev(C),
                     info, rel=1e-13)
         # scaled versions: (b) and (d) with mu != 1
         for mu in scales:
-            Nm = nested_spec(alts, alone, nests, mus, pre + 'nested_mev_mu', mu=mu)
+            Nm = nested_spec(alts, alone, nests, mus, pre + 'nested_mev_mu', mu=mu, p=pf)
             if nests:
-                Cm = cnl_spec(alts, alone, whole, mus, pre + 'cnlmu', mu=mu)
+                Cm = cnl_spec(alts, alone, whole, mus, pre + 'cnlmu', mu=mu, p=pf, alpha=af)
                 compare(rec, 'cnl-with-whole-memberships-differs-from-nested', pre + 'cnlmu', pre + 'nested_mev_mu', Cm, Nm, table,
                         ev(Cm), ev(Nm), dict(info, mu=mu))
             if not log:
-                Nmt = nested_spec(alts, alone, nests, mus, 'nested_mev_mu', mu=mu, syntax='tuple')
+                Nmt = nested_spec(alts, alone, nests, mus, 'nested_mev_mu', mu=mu, p=pf, syntax='tuple')
                 compare(rec, 'tuple-syntax-differs-from-nest-objects', 'nested_mev_mu[tuple]', 'nested_mev_mu[objects]', Nmt, Nm,
                         table, ev(Nmt), ev(Nm), dict(info, mu=mu), rel=1e-13)
                 if nests:
-                    Cmt = cnl_spec(alts, alone, whole, mus, 'cnlmu', mu=mu, syntax='tuple')
+                    Cmt = cnl_spec(alts, alone, whole, mus, 'cnlmu', mu=mu, p=pf, alpha=af, syntax='tuple')
                     compare(rec, 'tuple-syntax-differs-from-nest-objects', 'cnlmu[tuple]', 'cnlmu[objects]', Cmt, Cm, table,
                             ev(Cmt), ev(Cm), dict(info, mu=mu), rel=1e-13)
 
@@ -196,17 +202,19 @@ def check_cnl_structure(alph, alts, alone, nests, mus, table, rec, tier, si=0):
     info = dict(shape='alone=' + ('yes' if alone else 'no') + ',cross=' + ('yes' if cross else 'no'), alone=list(alone),
                 nests=[dict(n) for n in nests], mus=list(mus))
     muform = B.MUFORMS[si % 3]
+    pf = B.PFORMS[si % 4]
+    af = B.ALPHAFORMS[si % 3]
     for log in (False, True):
         pre = 'log' if log else ''
-        C = cnl_spec(alts, alone, nests, mus, pre + 'cnl')
-        C1 = dict(cnl_spec(alts, alone, nests, mus, pre + 'cnlmu', mu=1.0), forms=dict(mu=muform))
+        C = cnl_spec(alts, alone, nests, mus, pre + 'cnl', p=pf, alpha=af)
+        C1 = cnl_spec(alts, alone, nests, mus, pre + 'cnlmu', mu=1.0, p=pf, alpha=af, mu_form=muform)
         compare(rec, 'scale-one-differs-from-unscaled', pre + 'cnlmu(mu=1)', pre + 'cnl', C1, C, table, ev(C1), ev(C), info)
-        Ct = cnl_spec(alts, alone, nests, mus, pre + 'cnl', syntax='tuple')
+        Ct = cnl_spec(alts, alone, nests, mus, pre + 'cnl', p=pf, alpha=af, syntax='tuple')
         compare(rec, 'tuple-syntax-differs-from-nest-objects', pre + 'cnl[tuple]', pre + 'cnl[objects]', Ct, C, table, ev(Ct), ev(C),
                 info, rel=1e-13)
     mu = alph['scale'][1]
-    Cm = cnl_spec(alts, alone, nests, mus, 'cnlmu', mu=mu)
-    Cmt = cnl_spec(alts, alone, nests, mus, 'cnlmu', mu=mu, syntax='tuple')
+    Cm = cnl_spec(alts, alone, nests, mus, 'cnlmu', mu=mu, p=pf, alpha=af)
+    Cmt = cnl_spec(alts, alone, nests, mus, 'cnlmu', mu=mu, p=pf, alpha=af, syntax='tuple')
     compare(rec, 'tuple-syntax-differs-from-nest-objects', 'cnlmu[tuple]', 'cnlmu[objects]', Cmt, Cm, table, ev(Cmt), ev(Cm),
             dict(info, mu=mu), rel=1e-13)
 
